@@ -113,3 +113,18 @@ package pstoreds
 //@ ensures result0 ==> called(MatchesPublicKey, 0) && ret(MatchesPublicKey, 0, 0) && arg(MatchesPublicKey, 0, 0) == rec.PeerID && arg(MatchesPublicKey, 0, 1) == recordEnvelope.PublicKey
 //@ ensures result0 ==> nth(peer.IDFromPublicKey(recordEnvelope.PublicKey), 1) == nil && nth(peer.IDFromPublicKey(recordEnvelope.PublicKey), 0) == rec.PeerID
 //@ noframe
+
+// ---------------------------------------------------------------------------
+// setAddrs: how an incoming address updates an entry that is already stored (closure 0 = updateExisting):
+// override mode assigns TTL and expiry; extend mode (AddAddrs) never shortens either of them.
+
+//@ func (ab *dsAddrBook) setAddrs
+//@ prop C09
+//@ noframe
+//@ closure 0
+//@ ensures result == addrsMap[string(incoming.Bytes())]
+//@ ensures result != nil && mode == ttlOverride ==> result.Ttl == ttl && result.Expiry == newExp
+//@ ensures result != nil && mode == ttlExtend ==> result.Ttl == max(old(result.Ttl), ttl) && result.Expiry == max(old(result.Expiry), newExp)
+//@ ensures forall x *pb.AddrBookRecord_AddrEntry :: x != result ==> x.Ttl == old(x.Ttl) && x.Expiry == old(x.Expiry)
+//@ ensures forall x *pb.AddrBookRecord_AddrEntry :: x.Addr == old(x.Addr)
+//@ noframe
